@@ -1,4 +1,4 @@
-//! Probe (C16): LinearLessOrEqualPropagator::propagate computes `c - (lb_lhs - lb(x_i))` in i32 although lb_lhs was
+//! F29 (C16): LinearLessOrEqualPropagator::propagate computes `c - (lb_lhs - lb(x_i))` in i32 although lb_lhs was
 //! accumulated in i64 and only its total is checked to fit.  Exit 1 = reproduced.
 use pumpkin_solver::constraints;
 use pumpkin_solver::results::ProblemSolution;
